@@ -38,6 +38,34 @@ def _has_dep(d):
     return d["cls"] not in ("static", "Union", "Intersection") or any(_has_dep(m) for m in d.get("members", []))
 
 
+def _documented_bound(t):
+    """docs/dependent.md: the bound of a @dependent_check type is the annotation of the VALUE parameter of its condition - the first
+    parameter of the function form, the parameter after `self` of the class form's `check`. Read from the user's code, not from
+    what the library stored; an explicit bound (Dependent[bound, ...] / with_bound) or an unannotated condition keeps the stored one."""
+    import inspect
+
+    from ovld.dependent import FuncDependentType, ParametrizedDependentType
+
+    cls = type(t)
+    ann = inspect.Parameter.empty
+    try:
+        if "func" in vars(cls):
+            ps = list(inspect.signature(vars(cls)["func"]).parameters.values())
+            ann = ps[0].annotation if ps else ann
+        else:
+            for k in cls.__mro__:
+                if "check" in vars(k) and k not in (DependentType, ParametrizedDependentType, FuncDependentType):
+                    ps = list(inspect.signature(vars(k)["check"]).parameters.values())
+                    ann = ps[1].annotation if len(ps) > 1 else ann
+                    break
+        default = t.default_bound(*t.parameters) if hasattr(t, "default_bound") and hasattr(t, "parameters") else None
+    except Exception:
+        return t.bound
+    if ann is inspect.Parameter.empty or not isinstance(ann, type) or t.bound is not default:
+        return t.bound
+    return ann
+
+
 def describe_type(t):
     """Structural description of an annotation as the dispatcher sees it."""
     if isinstance(t, MetaMC):
@@ -47,7 +75,7 @@ def describe_type(t):
             return dict(cls=n, members=[describe_type(m) for m in h.types])
         return dict(cls="static", name=repr(t))
     if isinstance(t, DependentType):
-        b = describe_type(t.bound)
+        b = describe_type(_documented_bound(t))
         if isinstance(t, Equals):
             return dict(cls="Equals", values=[dict(vid=vid(p), repr=repr(p), type=type(p).__name__) for p in t.parameters], bound=b)
         if isinstance(t, ProductType):
@@ -139,6 +167,22 @@ def _same_named():
     return mk("Bit", a), mk("Bit", b), mk("Bit0", c)
 
 
+_NOTEQ = []
+
+
+def _not_eq():
+    if not _NOTEQ:
+        from ovld.dependent import dependent_check
+
+        @dependent_check
+        class NotEq:
+            def check(self, value: int):
+                return value != self.parameter
+
+        _NOTEQ.append(NotEq)
+    return _NOTEQ[0]
+
+
 def families(tier):
     L = lambda *vs: Literal[tuple(vs)] if len(vs) > 1 else Literal[vs[0]]
     fam = []
@@ -216,6 +260,10 @@ def families(tier):
     fam.append(([[StartsWith["a"]], [EndsWith["z"]]], [(str,)], "method"))
     fam.append(([[L(1)], [L(2)], [L(3)], [L(4)]], [(int,)], "method"))
     fam.append(([[Dependent[int, positive], KW("k", object)], [int, KW("k", object)]], [(int, KW("k", str))], "method"))
+    # the CLASS form of @dependent_check (docs/dependent.md; the built-in Regexp is one): the bound is the annotation of the
+    # value parameter of `check`, the condition is never asked about anything else
+    fam.append(([[Regexp["^a"]]], [(str,), (int,)]))
+    fam.append(([[_not_eq()[0]], [str]], [(int,), (str,), (bool,)]))
     # three Literal methods whose value sets overlap PAIRWISE but have no value common to all three, next to a second conditioned
     # position (so that no lookup table applies): whenever two conditions hold the ambiguity error is raised
     fam.append(([[L(0, 1), L(7)], [L(1, 2), L(7)], [L(3), L(7)]], [(int, int)]))
